@@ -120,3 +120,18 @@ pub fn name_in_packets(s: &str) -> Vec<(&'static str, bool)> {
     out.push(("v5 CONNECT will response-topic", v5_ok(&frame(0x10, &b))));
     out
 }
+
+/// A valid name carried by a v5 PUBLISH together with a Response Topic that is a NEAR-duplicate of it (same text
+/// in another ASCII case, or identical): what the decoder hands back as topic name and as response topic.
+pub fn name_with_similar_response_topic(s: &str, response: &str) -> Option<(String, Option<String>, bool, bool)> {
+    let mut props = vec![0x08];
+    put_str(&mut props, response);
+    let mut b = Vec::new();
+    put_str(&mut b, s);
+    put_varint(&mut b, props.len());
+    b.extend_from_slice(&props);
+    match v5::Packet::decode(&frame(0x30, &b)) {
+        Ok(Some(v5::Packet::Publish(p))) => Some((p.topic_name.to_string(), p.properties.response_topic.as_ref().map(|t| t.to_string()), p.topic_name.is_sys(), p.topic_name.is_shared())),
+        _ => None,
+    }
+}
